@@ -49,19 +49,35 @@ inline Facts facts(const Tlds &T, const Consts &C, const Bytes &a, bool undersco
     return f;
 }
 
-struct Outs { v_outcome obj[4][2], dir[4][2]; int mask[2]; };
+struct Outs { v_outcome obj[4][2], dir[4][2], vet[4]; int mask[2]; };
 
 class Core {
 public:
     const vapi *A; Consts C; Tlds T; TailBuf TB{8192};
     Obj *o[4][2];
-    explicit Core(const vapi *a) : A(a), C(a) { for (auto &r : o) for (auto &x : r) x = nullptr; }
+    Obj *vet[4];   // "veteran" objects: reach mode m (TLD checking on) through a history of other modes and refused eav_setup calls
+    explicit Core(const vapi *a) : A(a), C(a) { for (auto &r : o) for (auto &x : r) x = nullptr; for (auto &x : vet) x = nullptr; }
+    bool make_veteran(int m) {
+        Obj *v = vet[m] = new Obj(A);
+        auto setup = [&](int mode) { A->obj_set_mode(v->p, mode); return A->obj_setup(v->p) == 0; };
+        auto refused = [&]() { A->obj_set_rfc_raw(v->p, 4242); (void) A->obj_setup(v->p); };
+        if (!setup(m) || !setup(3)) return false;
+        v->is_email("a@b.com"); v->is_email("a@\xE2\x99\xA5.de");
+        refused();
+        if (!setup(m < 3 ? (m + 1) % 3 : 0) || !setup(3)) return false;
+        refused();
+        if (!setup(3)) return false;
+        v->is_email("\xD0\x96@b.com");
+        A->obj_set_tld(v->p, 1);
+        return setup(m);
+    }
     bool init(const std::string &datadir) {
         if (!T.load(datadir)) return false;
         for (int m = 0; m < 4; m++) for (int t = 0; t < 2; t++) { o[m][t] = new Obj(A); if (o[m][t]->configure(m, t) != 0) return false; }
+        for (int m = 0; m < 4; m++) if (!make_veteran(m)) return false;
         return true;
     }
-    ~Core() { for (auto &r : o) for (auto &x : r) delete x; }
+    ~Core() { for (auto &r : o) for (auto &x : r) delete x; for (auto &x : vet) delete x; }
     // mask: allow_tld used for the TLD-on objects (the TLD-off objects get ~mask to show it is irrelevant)
     Outs run(const Bytes &a, int mask) {
         Outs r; r.mask[0] = ~mask & 0x7ff; r.mask[1] = mask;
@@ -70,10 +86,18 @@ public:
             r.obj[m][t] = o[m][t]->is_email_tail(TB, a);
             r.dir[m][t] = email_direct(A, TB, m, a, t);
         }
+        for (int m = 0; m < 4; m++) { A->obj_set_allow(vet[m]->p, r.mask[1]); r.vet[m] = vet[m]->is_email_tail(TB, a); }
         return r;
     }
     int default_mask() const { return C.bit[1] | C.bit[2] | C.bit[3] | C.bit[4] | C.bit[5] | C.bit[7]; }
 };
+
+// the veteran object of mode m must give exactly the outcome of the dedicated one (sampled history independence / mode wiring)
+inline std::string veteran_differs(const Outs &o, int m) {
+    const v_outcome &x = o.vet[m], &y = o.obj[m][1];
+    if (x.ret == y.ret && x.errcode == y.errcode && x.rc == y.rc && x.idn_rc == y.idn_rc && x.is_ipv4 == y.is_ipv4 && x.is_ipv6 == y.is_ipv6 && x.is_domain == y.is_domain && strcmp(x.errstr, y.errstr) == 0) return "";
+    return std::string("an object that reached mode ") + ref::MODE_NAME[m] + " through other modes and refused eav_setup calls -> " + outcome_str(x) + ", a freshly set up one -> " + outcome_str(y);
+}
 
 // policy formula (C08) applied to a result code
 inline void policy(const Consts &C, int rc, int mask, int *ret, int *errcode) {
